@@ -48,7 +48,14 @@ def gen_base(rng, name):
     k = rng.randint(1, min(4, m))
     crits = rng.sample(c["criteria"], k)
     nabs = rng.choice([0, 0, 1, 1, 2])
-    names = crits + rng.sample(ABSENT, nabs)
+    # absent names: unrelated ones, and near misses of the present labels (a longer name that starts with a label, a
+    # label cut short, another case, surrounding blanks)
+    longest = max(c["criteria"], key=len)
+    near = [longest + "_adj", longest + "2", c["criteria"][0] + "X", longest[:-1] if len(longest) > 1 else longest + "0",
+            longest.swapcase() if longest.swapcase() != longest else longest + " ", " " + c["criteria"][-1]]
+    near = [x for x in dict.fromkeys(near) if x not in c["criteria"]]
+    pool = ABSENT + near if rng.random() < 0.5 else ABSENT
+    names = crits + rng.sample(pool, min(nabs, len(pool)))
     if rng.random() < 0.12:
         # criteria labelled by integers (years): a condition key is a string, so "2020" names NO criterion of this
         # matrix - it is an absent criterion like any other
